@@ -3,6 +3,7 @@ package types
 import (
 	"fmt"
 	"reflect"
+	"strconv"
 )
 
 // JSONValue is an internal type used in storing various types, for converting any type to JSON supported type.
@@ -141,11 +142,11 @@ func ConvertToJSONSupportedValue(t interface{}) JSONValue {
 		var f64 float64
 		switch vv := v.(type) {
 		case float32:
-			f64 = float64(vv)
+			f64 = float32ToFloat64(vv)
 		case float64:
 			f64 = vv
 		case *float32:
-			f64 = float64(*vv)
+			f64 = float32ToFloat64(*vv)
 		case *float64:
 			f64 = *vv
 		}
@@ -161,4 +162,14 @@ func ConvertToJSONSupportedValue(t interface{}) JSONValue {
 	default:
 	}
 	return t
+}
+
+// float32ToFloat64 returns the float64 that JSON carries for a float32 (its shortest decimal form),
+// so that the replica that issues an operation stores the same number as the replicas that receive it.
+func float32ToFloat64(v float32) float64 {
+	f64, err := strconv.ParseFloat(strconv.FormatFloat(float64(v), 'g', -1, 32), 64)
+	if err != nil {
+		return float64(v)
+	}
+	return f64
 }
